@@ -585,7 +585,7 @@ Proof.
   destruct H2 as (E2 & TB2 & SI2). pose proof (append_slice_mlen _ _ _ _ EB) as L2.
   assert (E02 : Ext c (mlen (w_buf w)) w w2) by (eapply Ext_trans; eauto; lia).
   change (mlen opt_header_default) with 9 in L1. change (mlen [0; 0]) with 2 in L2.
-  destruct (opt_patches c w w2 (oh_udp oh) (oh_ext oh * 256 + oh_ver oh) (if oh_do oh then 32768 else 0) TB2 SI2 E02 ltac:(lia))
+  destruct (opt_patches c w w2 (oh_udp oh) (oh_ext oh * 256 + oh_ver oh) (oh_flags oh) TB2 SI2 E02 ltac:(lia))
     as (E3 & TB3 & SI3 & L3).
   match goal with |- context [compose_opts c opts ?x] => set (w3 := x) in * end.
   pose proof (compose_opts_spec c opts w3 TB3 SI3) as H4.
